@@ -222,32 +222,57 @@ def coq_files():
     return sorted(os.path.basename(f) for f in glob.glob(os.path.join(COQ, "*.v")) if not os.path.basename(f).startswith("Goal_tmp"))
 
 
-def gen_extract():
-    """coq/Extract.v is generated from the fragments coq/extract.d/*.txt (first line 'Require: M1 M2', then names)."""
+def _read_fragment(f):
     mods, names = [], []
-    for f in sorted(glob.glob(os.path.join(COQ, "extract.d", "*.txt"))):
-        for line in open(f):
-            line = line.strip()
-            if not line or line.startswith("#"):
-                continue
-            if line.startswith("Require:"):
-                for m in line[len("Require:"):].split():
-                    if m not in mods:
-                        mods.append(m)
-            else:
-                for n in line.split():
-                    if n not in names:
-                        names.append(n)
-    txt = ("(* GENERATED by lib/vlib.py from coq/extract.d/*.txt - do not edit.\n"
-           "   ExtrOcamlBasic only (bool, option, unit, list, prod, sumbool -> OCaml's); Z/positive/N/nat stay the\n"
-           "   extracted inductive types; no Extract Constant / Extract Inductive of our own. *)\n"
-           "From Coq Require Import ZArith List Extraction ExtrOcamlBasic.\n"
-           "From LP Require Import %s.\n"
-           "Set Warnings \"-extraction-opaque-accessed\".\n"
-           "Extraction \"model.ml\"\n  %s.\n" % (" ".join(mods), "\n  ".join(names)))
-    pf = os.path.join(COQ, "Extract.v")
-    if not os.path.exists(pf) or open(pf).read() != txt:
-        open(pf, "w").write(txt)
+    for line in open(f):
+        line = line.strip()
+        if not line or line.startswith("#"):
+            continue
+        if line.startswith("Require:"):
+            for m in line[len("Require:"):].split():
+                if m not in mods:
+                    mods.append(m)
+        else:
+            for n in line.split():
+                if n not in names:
+                    names.append(n)
+    return mods, names
+
+
+def extract_props():
+    """properties that have an extraction fragment coq/extract.d/<P>.txt (00base.txt is shared by all)"""
+    return sorted(os.path.basename(f)[:-4] for f in glob.glob(os.path.join(COQ, "extract.d", "*.txt"))
+                  if not os.path.basename(f).startswith("00"))
+
+
+def gen_extract():
+    """coq/Extract_<P>.v is generated per property from coq/extract.d/00base.txt + coq/extract.d/<P>.txt
+    (first line 'Require: M1 M2', then names).  Each property gets its own OCaml module model_<p>.ml, so that
+    equal names in the models of different properties never clash."""
+    base = os.path.join(COQ, "extract.d", "00base.txt")
+    bmods, bnames = _read_fragment(base) if os.path.exists(base) else ([], [])
+    want = set()
+    for P in extract_props():
+        mods, names = _read_fragment(os.path.join(COQ, "extract.d", P + ".txt"))
+        mods = bmods + [m for m in mods if m not in bmods]
+        names = bnames + [n for n in names if n not in bnames]
+        txt = ("(* GENERATED by lib/vlib.py from coq/extract.d/00base.txt and %s.txt - do not edit.\n"
+               "   ExtrOcamlBasic only (bool, option, unit, list, prod, sumbool -> OCaml's); Z/positive/N/nat stay the\n"
+               "   extracted inductive types; no Extract Constant / Extract Inductive of our own. *)\n"
+               "From Coq Require Import ZArith List Extraction ExtrOcamlBasic.\n"
+               "From LP Require Import %s.\n"
+               "Set Warnings \"-extraction-opaque-accessed\".\n"
+               "Extraction \"model_%s.ml\"\n  %s.\n" % (P, " ".join(mods), P.lower(), "\n  ".join(names)))
+        pf = os.path.join(COQ, "Extract_%s.v" % P)
+        want.add(pf)
+        if not os.path.exists(pf) or open(pf).read() != txt:
+            open(pf, "w").write(txt)
+    for f in glob.glob(os.path.join(COQ, "Extract*.v")):
+        if f not in want:
+            os.remove(f)
+            for ext in (".vo", ".glob", ".vok", ".vos"):
+                if os.path.exists(f[:-2] + ext):
+                    os.remove(f[:-2] + ext)
 
 
 def build_coq(targets=None, clean=False):
@@ -317,19 +342,14 @@ def coqchk(prop):
 
 # --------------------------------------------------------------------------- OCaml side
 
-MDRIVER_ML = """(* GENERATED: model driver.  `mdriver <prop>` reads cases on stdin (one per line), prints one result
+MDRIVER_ML = """(* GENERATED: model driver of one property.  Reads cases on stdin (one per line), prints one result
    line each.  A case carries the implementation's output after " => " (for checker-style operations). *)
 let () =
-  let prop = if Array.length Sys.argv > 1 then Sys.argv.(1) else "" in
-  let run =
-    match prop with
-%s
-    | _ -> (fun _ _ -> "UNKNOWN-PROPERTY")
-  in
+  let run = %s.run in
   (try
     while true do
       let line = input_line stdin in
-      let all = Io.split_ws line in
+      let all = %s.split_ws line in
       let rec cut acc = function
         | [] -> (List.rev acc, [])
         | "=>" :: rest -> (List.rev acc, rest)
@@ -344,34 +364,57 @@ let () =
 """
 
 
-def build_mdriver():
-    """Extract the model (coq/Extract.v -> build/ml/model.ml) and build ocaml/mdriver.ml."""
-    mld = os.path.join(BUILD, "ml")
+def build_mdriver(prop):
+    """Build the OCaml model driver of one property from coq/model_<p>.ml (its own extraction), ocaml/io.ml,
+    ocaml/p_<p>.ml and the helper modules p_<p>.ml mentions.  Sources are written against `Model` / `Io`;
+    they are compiled per property with those module names mapped to Model_<p> / Io_<p>."""
+    low = prop.lower()
+    mld = os.path.join(BUILD, "ml", prop)
     exe = os.path.join(mld, "mdriver")
-    with Lock("ml"):
-        srcs = sorted(glob.glob(os.path.join(VERIF, "ocaml", "*.ml")))
-        model_src = os.path.join(COQ, "model.ml")
-        deps = srcs + [model_src, os.path.join(COQ, "model.mli")]
+    with Lock("ml-" + prop):
+        model_src = os.path.join(COQ, "model_%s.ml" % low)
+        drv = os.path.join(VERIF, "ocaml", "p_%s.ml" % low)
         if not os.path.exists(model_src):
-            raise BuildError("extraction did not produce model.ml")
+            raise BuildError("extraction did not produce model_%s.ml" % low)
+        if not os.path.exists(drv):
+            raise BuildError("no ocaml/p_%s.ml" % low)
+        drv_txt = open(drv).read()
+        helpers = []
+        for s in sorted(glob.glob(os.path.join(VERIF, "ocaml", "*.ml"))):
+            b = os.path.basename(s)[:-3]
+            if b == "io" or b.startswith("p_") or b == "mdriver":
+                continue
+            if re.search(r"\b%s\b" % (b[0].upper() + b[1:]), drv_txt):
+                helpers.append(s)
+        deps = [model_src, model_src + "i", os.path.join(VERIF, "ocaml", "io.ml"), drv] + helpers
         stamp = os.path.join(mld, "stamp")
         sig = tree_hash(deps)
         if os.path.exists(exe) and os.path.exists(stamp) and open(stamp).read() == sig:
             return exe
-        os.makedirs(mld, exist_ok=True)
-        for d in deps:
-            shutil.copy(d, mld)
-        props = sorted(os.path.basename(s)[2:-3] for s in srcs if os.path.basename(s).startswith("p_"))
-        with open(os.path.join(mld, "mdriver.ml"), "w") as f:
-            f.write(MDRIVER_ML % "\n".join('    | "%s" -> P_%s.run' % (p.upper(), p) for p in props))
-        order = ["model.mli", "model.ml", "io.ml"] + \
-                sorted(os.path.basename(s) for s in srcs if os.path.basename(s) not in ("io.ml", "mdriver.ml")) + \
-                ["mdriver.ml"]
-        rc, o = sh(["ocamlfind", "ocamlopt", "-O3" if False else "-inline", "100", "-w", "-a", "-package", "zarith",
+        shutil.rmtree(mld, ignore_errors=True)
+        os.makedirs(mld)
+        M, I = "Model_" + low, "Io_" + low
+
+        def subst(txt):
+            txt = re.sub(r"\bModel\b", M, txt)
+            txt = re.sub(r"\bIo\b", I, txt)
+            return txt
+        shutil.copy(model_src, os.path.join(mld, "model_%s.ml" % low))
+        shutil.copy(model_src + "i", os.path.join(mld, "model_%s.mli" % low))
+        open(os.path.join(mld, "io_%s.ml" % low), "w").write(subst(open(os.path.join(VERIF, "ocaml", "io.ml")).read()))
+        order = ["model_%s.mli" % low, "model_%s.ml" % low, "io_%s.ml" % low]
+        for h in helpers:
+            open(os.path.join(mld, os.path.basename(h)), "w").write(subst(open(h).read()))
+            order.append(os.path.basename(h))
+        open(os.path.join(mld, "p_%s.ml" % low), "w").write(subst(drv_txt))
+        order.append("p_%s.ml" % low)
+        open(os.path.join(mld, "mdriver.ml"), "w").write(MDRIVER_ML % ("P_" + low, I))
+        order.append("mdriver.ml")
+        rc, o = sh(["ocamlfind", "ocamlopt", "-inline", "100", "-w", "-a", "-package", "zarith",
                     "-linkpkg"] + order + ["-o", "mdriver.tmp"], cwd=mld)
         if rc != 0:
             log(o[-4000:])
-            raise BuildError("OCaml model driver does not build")
+            raise BuildError("OCaml model driver of %s does not build" % prop)
         os.rename(os.path.join(mld, "mdriver.tmp"), exe)
         open(stamp, "w").write(sig)
     return exe
